@@ -211,6 +211,9 @@ func newHAt(rng *rand.Rand, tr *sim.Trace, seg int, o opts, local string, node s
 			return time.Hour
 		}
 	}
+	// the clock of the budget check starts before the limiter exists and is read in whole milliseconds, rounded up:
+	// the elapsed time the observer works with is never less than the limiter's own
+	h.t0 = time.Now()
 	switch {
 	case o.burst < 0:
 		h.lim = rate.NewLimiter(rate.Inf, 1)
@@ -252,7 +255,6 @@ func newHAt(rng *rand.Rand, tr *sim.Trace, seg int, o opts, local string, node s
 	h.srv = srv
 	h.base = time.Unix(1_700_000_100, 0) // a multiple of 300 s + 200 s into a rotation interval
 	srv.VerifSetTokenClock(func() time.Time { return h.base.Add(time.Duration(atomic.LoadInt64(&h.clock)) * time.Second) })
-	h.t0 = time.Now()
 	bl := []string{}
 	for k := range o.block {
 		bl = append(bl, sim.Hex([]byte(k)))
@@ -408,7 +410,7 @@ func (h *H) logOut(o sim.Out, failed bool) *sim.Dict {
 	dst := o.To
 	m := sim.M{"seg": h.seg, "node": h.node, "e": "Out", "dst": sim.M{"ipn": sim.Hex(dst.IP.To16()), "port": dst.Port}, "y": string(y),
 		"t": sim.Hex(t), "kind": "", "idOk": false, "ipOk": false, "token": "", "hasToken": false, "values": [][]any{},
-		"ro": false, "q": "", "rated": true, "failed": failed, "ms": int(o.When.Sub(h.t0) / time.Millisecond), "ih": "",
+		"ro": false, "q": "", "rated": true, "failed": failed, "ms": int((o.When.Sub(h.t0) + time.Millisecond - 1) / time.Millisecond), "ih": "",
 		"want4": false, "want6": false}
 	if ro, ok := d.Int("ro"); ok && ro == 1 {
 		m["ro"] = true
